@@ -5,7 +5,8 @@ import QipVerif.Model.Concat
 
 * `proc w=<wave>`                                     → `ok <mode> <step> <gate_tlist> <coeffs>` | `err <kind>`
 * `idle mode=d|c start=r last=r step=r`               → `ok <tlist>` | `err <kind>`
-* (`skipzero=1` on `concat` / `compile`: fixes/C12-2.patch, a channel without pulse is printed `~`; `dropzero=1` on `compile`: zero-duration instructions dropped before scheduling)
+* (`skipzero=1` on `concat` / `compile`: fixes/C12-2.patch, a channel without pulse is printed `~`; `dropzero=1` on `compile`: zero-duration instructions dropped before scheduling;
+  `gaprel=r` on `concat` / `compile`: fixes/C12-3.patch, idle-gap threshold r * largest start time)
 * `concat first=tol|struct tau=r chans=<chan>!<chan>…` → `ok <tlist>:<coeffs>!…` | `err <kind>`
      `<chan>` = `<start>@<wave>;<start>@<wave>;…` (`-` for a channel without instruction),
      `<wave>` = `s:<t>:<c>` | `a:<t,t,…>:<c,c,…>` | `m:<t,t,…>:<c>`
@@ -75,6 +76,7 @@ def showChanO : Option (List Rat × List Rat) → String
   | some r => showChan r
   | none => "~"
 def skipZ (fs : List String) : Bool := fNat? fs "skipzero" = some 1
+def gapR (fs : List String) : Option Rat := fRat? fs "gaprel"
 
 def step (line : String) : String :=
   let fs := fields line
@@ -97,7 +99,11 @@ def step (line : String) : String :=
   | some "concat" =>
     match first? fs, fRat? fs "tau", (fStr? fs "chans").bind (fun s => (s.splitOn "!").mapM chan?) with
     | some bt, some τ, some chans =>
-      if skipZ fs then
+      if (gapR fs).isSome then
+        match concatenateG (skipZ fs) ((gapR fs).getD 0) τ chans with
+        | .error e => "err " ++ errName e
+        | .ok outs => "ok " ++ "!".intercalate (outs.map showChanO)
+      else if skipZ fs then
         match concatenateZ bt τ chans with
         | .error e => "err " ++ errName e
         | .ok outs => "ok " ++ "!".intercalate (outs.map showChanO)
@@ -108,7 +114,11 @@ def step (line : String) : String :=
     | _, _, _ => if fStr? fs "chans" = none then
         (match first? fs, fRat? fs "tau" with
           | some bt, some τ =>
-            if skipZ fs then
+            if (gapR fs).isSome then
+              match concatenateG (skipZ fs) ((gapR fs).getD 0) τ [] with
+              | .error e => "err " ++ errName e
+              | .ok outs => "ok " ++ "!".intercalate (outs.map showChanO)
+            else if skipZ fs then
               match concatenateZ bt τ [] with
               | .error e => "err " ++ errName e
               | .ok outs => "ok " ++ "!".intercalate (outs.map showChanO)
@@ -129,8 +139,8 @@ def step (line : String) : String :=
       match sch with
       | none => "bad-op"
       | some sch =>
-        if skipZ fs ∨ fNat? fs "dropzero" = some 1 then
-          match compileV (fNat? fs "dropzero" = some 1) (skipZ fs) bt τ instrs sch with
+        if skipZ fs ∨ fNat? fs "dropzero" = some 1 ∨ (gapR fs).isSome then
+          match compileV (fNat? fs "dropzero" = some 1) (skipZ fs) bt (gapR fs) τ instrs sch with
           | none => "unmodelled"
           | some (.error e) => "err " ++ errName e
           | some (.ok none) => "ok none"
